@@ -6,6 +6,8 @@ func dispatch(t *testing.T, sc scenario) result {
 	switch sc.int(0) {
 	case 2:
 		return runDivider(sc)
+	case 3:
+		return runUtils(sc)
 	default:
 		return result{verdict: "unknown-family"}
 	}
